@@ -180,12 +180,14 @@ def r5_io_locked(ctx, prog):
     r = ctx.rule('C15.R5', 'file I/O happens under the fcntl lock of the same File object', floor=6, engine='E3 typestate')
     targets = [('ObjectFile::refresh', {}, set()), ('ObjectFile::store', {}, set()), ('ObjectFile::writeAttributes', {}, {'objectFile'}), ('Generation::wasUpdated', {'isToken': 0}, set()), ('Generation::wasUpdated', {'isToken': 1}, set()),
                ('Generation::commit', {'isToken': 1}, set()), ('Generation::sync', {'isToken': 0}, {'objectFile'})]
+    # methods that open (and close again) a descriptor of their own: POSIX record locks belong to the process and the file, closing *any* descriptor of the file drops them all
+    openers = {short(g['qname']) for g in prog.functions.values() if g.get('class') == 'Generation' and any(n.get('k') in ('Ctor', 'New') and n.get('type', '').replace('class ', '') == 'File' for n in walk(g['body']))}
     for q, cenv, prelocked in targets:
         f = prog.fn(q)
         ctx.analysed(f)
         cenv = dict(cenv)
         cenv[re.compile(r'isValid(@\d+)?\(\w+\)')] = 1
-        o = outcomes(f, prog, cenv, record=IO | {'lock', 'unlock', 'writeAttributes', 'sync'}, rounds=1, cap=512)
+        o = outcomes(f, prog, cenv, record=IO | {'lock', 'unlock', 'writeAttributes', 'sync'} | (openers if f.get('class') == 'ObjectFile' else set()), rounds=1, cap=512)
         r.paths += len(o.outcomes)
         bad = None
         nio = 0
@@ -199,6 +201,8 @@ def r5_io_locked(ctx, prog):
                     locked.add(rc)
                 elif e[1] == 'unlock':
                     locked.discard(rc)
+                elif e[1] in openers and f.get('class') == 'ObjectFile' and rc == 'gen' and locked:
+                    bad = (oc, 'gen->%s() at line %s opens and closes its own descriptor of the object file while %s is locked: closing it releases the fcntl lock this process holds, the rest of the region runs unlocked' % (e[1], e[3], '/'.join(sorted(locked))))
                 elif e[1] in IO and rc not in ('this',):
                     nio += 1
                     if rc not in locked:
@@ -230,6 +234,8 @@ def run(ctx):
 
 
 MUTANTS = [
+    dict(name='refresh-rechecks-generation-under-lock', rule='C15.R5', file='src/lib/object_store/ObjectFile.cpp', after='void ObjectFile::refresh(bool isFirstTime',
+         old='\tobjectFile.lock();\n\n\tif (objectFile.isEmpty())', new='\tobjectFile.lock();\n\n\tif (!isFirstTime && !gen->wasUpdated())\n\t{\n\t\tobjectFile.unlock();\n\t\treturn;\n\t}\n\n\tif (objectFile.isEmpty())'),
     dict(name='isvalid-without-refresh', rule='C15.R1', file='src/lib/object_store/ObjectFile.cpp', after='bool ObjectFile::isValid()', old='\trefresh();\n\n\treturn valid;', new='\treturn valid;'),
     dict(name='refresh-skips-token-index', rule='C15.R1', file='src/lib/object_store/ObjectFile.cpp', after='void ObjectFile::refresh(bool isFirstTime',
          old='\t\ttoken->index();\n', new='\t\t(void) token;\n'),
